@@ -3,11 +3,12 @@ import Pacti.Driver.OpsPoly
 import Pacti.Driver.OpsSym
 import Pacti.Driver.OpsElim
 import Pacti.Driver.OpsPlots
+import Pacti.Driver.OpsAlg
 open Lean Wire
 
 /-- every op family registers one handler here -/
 def handlers : List (String → Json → Option (Except String Json)) :=
-  [handlePoly, OpsSym.handleSym, OpsElim.handleElim, handlePlots]
+  [handlePoly, OpsSym.handleSym, OpsElim.handleElim, handlePlots, OpsAlg.handleAlg]
 
 def handle (j : Json) : Except String Json := do
   let op ← (← j.getObjVal? "op").getStr?
